@@ -13,7 +13,7 @@ COQ_DNODE = {"recv": "DRecv", "hashL": "DHashL", "hashP": "DHashP", "hit": "DHit
 COQ_SCOPE = {s: s.capitalize() for s in S.SCOPES}
 COQ_RSTATE = {"lookup": "SLookup", "pass": "SPass", "hash": "SHash", "error": "SError", "restart": "SRestart",
               "deliver": "SDeliver", "fetch": "SFetch", "deliver_stale": "SDeliverStale",
-              "hit_for_pass": "SHitForPass", "end": "SEnd", "other": "SOther"}
+              "hit_for_pass": "SHitForPass", "end": "SEnd", "upgrade": "SUpgrade", "other": "SOther"}
 # the order of Base/SMBase.v all_actions
 ACTION_ORDER = ["none", "bare", "errstmt", "restartstmt", "fail", "absent"] + ["r-" + s for s in S.RSTATES]
 
